@@ -103,7 +103,7 @@ CLAIMED.update({
 
 CLAIMED.update({
     "C02": (
-        "property-based differential testing against a reference reading of external behaviour: generated valid tasks (mutation pairs, specifications, placeholders, clashing private names) x flags x interpretations guided by reference stable models; oracle = reference (stable on one side's vocabulary, private extents supported, not stable on the other) vs exact evaluation of every emitted problem",
+        "property-based differential testing against a reference reading of external behaviour: generated valid tasks (mutation pairs, specifications, placeholders, clashing private names) x flags x interpretations guided by reference stable models; oracle = reference (stable on one side's vocabulary, private extents supported, not stable on the other) vs exact evaluation of every emitted problem; in an eighth of the cases the emitted TPTP text is read back and compared with the trees",
         "Exploration: an interpretation refutes an emitted forward/backward problem iff it witnesses a behavioural difference in that direction by the independent reference semantics; distinct source predicates must keep distinct names in the problems; valid tasks must be accepted and unrequested directions absent.",
         "Trusted: reference semantics and stable-model computation, exact evaluator; tasks are stratified by construction; an output predicate mentioned nowhere in the task is treated as vacuous.",
         "4/C02",
